@@ -69,6 +69,10 @@ def check_lp(ctx, case):
                     ctx.fail("lp_dist differs from the p-norm of the difference of the normalised distributions", case,
                              {"p": p, "pair": [i, j], "got": d[i][j], "exp": exp})
                     return
+                if exp >= 1e-13 and not (0.5 * exp <= d[i][j] <= 2 * exp):
+                    ctx.fail("lp_dist of two nearly equal distributions is far (relatively) from the p-norm of their difference", case,
+                             {"p": p, "pair": [i, j], "got": d[i][j], "exp": exp})
+                    return
                 if (D[i] == D[j]) != (d[i][j] == 0):
                     ctx.fail("lp_dist is zero for different distributions or non-zero for equal ones", case,
                              {"p": p, "pair": [i, j], "got": d[i][j]})
@@ -237,6 +241,26 @@ def run(ctx):
             specs[2]["ballots"].append(canon.spec_ballot(r=[[c] for c in r0[-1:] + r0[:-1]], w=gen.weight(rnd, "rat")))
         if rnd.random() < 0.2:
             specs[1] = {"cands": cs, "ballots": list(reversed(specs[0]["ballots"]))}
+        if i % 8 == 3:
+            # nearly equal distributions: an electorate of 10^9..10^11 voters, the profiles differ by one to three votes (or a
+            # ballot type of weight ~10^-9 is added at unit magnitude) - the distances are tiny but not zero
+            from fractions import Fraction as F
+            base = specs[0]["ballots"]
+            if rnd.random() < 0.6:
+                W = rnd.choice([10 ** 9, 2 * 10 ** 10, 10 ** 11])
+                big = [dict(b, w=canon.fs(canon.pf(b["w"]) * W)) for b in base]
+                unit = F(1)
+            else:
+                big = [dict(b) for b in base]
+                unit = F(1, 10 ** 9)
+            others = []
+            for k in (1, 2):
+                bl2 = [dict(b) for b in big]
+                j = rnd.randrange(len(bl2))
+                bl2[j]["w"] = canon.fs(canon.pf(bl2[j]["w"]) + k * unit * rnd.randint(1, 3))
+                others.append({"cands": cs, "ballots": bl2})
+            specs = [{"cands": cs, "ballots": big}] + others
+            ctx.count("nearly_equal_triples")
         ctx.guard("lp", check_lp, ctx, {"kind": "lp", "profiles": specs})
         n2 = rnd.randint(2, 5)
         cs2 = gen.cands(rnd, n2)
